@@ -496,5 +496,47 @@ func runC11(c *Ctx) {
 	mon := monitorStream("C11")
 	runStreamHistories(c, "c04", c.Pick(120, 1500), "c04", nil, mon, ignoredMonitor)
 	// servers older than 5.5.0: the close half closes the streams one by one
-	runLegacy(c, []string{"rebalance"})
+	runLegacy(c, []string{"rebalance"}, c.Pick(4, 8), c.Pick(40, 120))
+	// the whole client against the simulated node (real gocbcore agents; the node answers every CLOSE_STREAM and then sends the
+	// end of that stream): rebalance cycles, then documents and Close() as in C13
+	nw := c.Pick(4, 16)
+	wres := make([]*c13WireRes, nw)
+	wargs := make([]c13WireArg, nw)
+	for i := range wargs {
+		wargs[i] = c13WireArg{Seed: c.Rng.Int63(), Mitigation: i%2 == 1, Rebalances: 3 + i%3}
+	}
+	Parallel(nw, 4, func(i int) {
+		cr := RunChild("c13wire", wargs[i], 120*time.Second)
+		for _, l := range cr.Lines {
+			if strings.HasPrefix(l, "RESULT ") {
+				r := &c13WireRes{}
+				if json.Unmarshal([]byte(l[7:]), r) == nil {
+					wres[i] = r
+				}
+			}
+		}
+	})
+	for i, r := range wres {
+		rep := map[string]interface{}{"how": "vh child c13wire", "arg": wargs[i]}
+		c.Eval(fmt.Sprint("wire-rebalance", wargs[i]), true)
+		c.Count("whole-client-rebalance-cycles")
+		switch {
+		case r == nil:
+			c.Violate("wire-rebalance", "the whole client against the simulated node died during rebalance cycles", rep)
+		case !r.Ready:
+			c.Note("wire-level rebalance cycles: the client did not become ready: %v", r.Notes)
+		case r.StoppedAfter > 0:
+			rep["observed"] = r
+			c.Violate("wire-rebalance", fmt.Sprintf("the client stopped by itself after rebalance cycle %d: %v", r.StoppedAfter, r.Notes), rep)
+		case r.RebalancesDone != wargs[i].Rebalances:
+			rep["observed"] = r
+			c.Violate("wire-rebalance", fmt.Sprintf("%d of %d rebalance cycles completed: %v", r.RebalancesDone, wargs[i].Rebalances, r.Notes), rep)
+		case r.Result != "returned":
+			rep["observed"] = r
+			c.Violate("wire-rebalance", "after the rebalance cycles Close(): Start() "+r.Result, rep)
+		case r.Consumed != r.Sent:
+			rep["observed"] = r
+			c.Violate("wire-rebalance", fmt.Sprintf("after the rebalance cycles %d documents were sent on the reopened streams, %d reached the consumer", r.Sent, r.Consumed), rep)
+		}
+	}
 }
